@@ -104,6 +104,8 @@ Fixpoint parse16_go (cur : pstate) (ls : list string) : option template16 :=
               let body := rev acc in
               let it := if String.eqb w "PER_MSG" && (negb (String.eqb sfx "") || existsb (mentions "MSGID") body)
                         then MsgBlock ib ie sfx body      (* text after the end tag, or <<<MSGID>>> in the body *)
+                        else if String.eqb w "PER_EVENT" && existsb (fun l => mentions "SIGNATURE" l || mentions "SIGNATUREWITHDEFAULTS" l) body
+                        then EvBlock ib ie body          (* the event's signature (interface oracle) *)
                         else mk_block id ib ie body in
               if String.eqb sfx "" || String.eqb w "PER_MSG" then option_map (cons it) (parse16_go P0 r) else None
           | None => match chop_nl l with
